@@ -104,12 +104,17 @@ pub fn scenario_strategy(with_plugins: bool) -> BoxedStrategy<Scenario> {
         (prop_oneof![3 => Just(0u32), 2 => 0u32..50_000, 1 => Just(15_999u32), 1 => Just(16_001u32)], prop_oneof![8 => prop_oneof![3 => Just(0u32), 2 => 0u32..50_000, 1 => Just(15_999u32), 1 => Just(16_001u32)].prop_map(Some), 1 => Just(None)]),
         proptest::collection::vec(echo_policy(), 1..6),
         extras,
-        (gens::targets(3), prop_oneof![4 => any::<u16>().prop_map(StrategyV::Pick), 1 => Just(StrategyV::None)], prop_oneof![Just(2i32), Just(3i32)], proptest::sample::select(vec!["en_us", "de_de", "fr"])),
+        (gens::targets(3), prop_oneof![4 => any::<u16>().prop_map(StrategyV::Pick), 1 => Just(StrategyV::None)], prop_oneof![Just(2i32), Just(3i32)], proptest::sample::select(vec!["en_us", "de_de", "fr", "SHIPPED:fr_FR", "SHIPPED:es_es", "SHIPPED:zh-CN", "SHIPPED:ru_ru", "SHIPPED:de", "SHIPPED:en_gb", "SHIPPED:ja_jp"])),
     )
         .prop_map(|((auth_ms, discovery_ms, filter_ms, strategy_ms), (ack_delay_ms, info_delay_ms), echo, extras, (targets, strategy, intent, locale))| {
+            // "SHIPPED:<locale>": the messages come from the tables passage ships as its default configuration
+            let (loc, locale) = match locale.strip_prefix("SHIPPED:") {
+                Some(l) => (crate::checks::c03::shipped_loc(), l),
+                None => (LocV::Echo, locale),
+            };
             let sc = Scenario {
                 cfg: ConnCfg::default(),
-                adapters: AdapterScript { auth_ms, discovery_ms, filter_ms, strategy_ms, discovery: Some(targets), strategy, loc: LocV::Echo, ..Default::default() },
+                adapters: AdapterScript { auth_ms, discovery_ms, filter_ms, strategy_ms, discovery: Some(targets), strategy, loc, ..Default::default() },
                 intent,
                 locale: locale.to_string(),
                 ack_delay_ms,
@@ -148,7 +153,13 @@ pub fn view(out: &sim::SimOutcome) -> View {
 }
 
 fn is_timeout_disconnect(p: &Pkt) -> bool {
-    matches!(p, Pkt::CfgDisconnect { reason: Text::Plain(s) } if s.starts_with("disconnect_timeout"))
+    if matches!(p, Pkt::CfgDisconnect { reason: Text::Plain(s) } if s.starts_with("disconnect_timeout")) {
+        return true;
+    }
+    // one of the timeout messages passage ships as its default configuration
+    static SHIPPED: std::sync::OnceLock<Vec<serde_json::Value>> = std::sync::OnceLock::new();
+    let shipped = SHIPPED.get_or_init(|| passage::config::FixedLocalization::default().messages.values().filter_map(|t| t.get("disconnect_timeout")).filter_map(|m| Text::from_passage_string(m)).map(|t| t.normalized()).collect());
+    matches!(p, Pkt::CfgDisconnect { reason } if shipped.contains(&reason.normalized()))
 }
 
 fn decide(case: &Case, out: &sim::SimOutcome, tl: &timed::Timeline, info: &mut CaseInfo) -> Verdict {
